@@ -233,6 +233,21 @@ func execC08(t *testing.T, raw json.RawMessage, res *Result) {
 					return
 				}
 				res.probe("unrecognized_wants", 1)
+				// the refusal must stick to the request, not to the order of calls: asking the
+				// same finder again must be refused again, and nothing of the refused want may be sent
+				if _, err2 := f.Process(wants, nil, true); err2 == nil {
+					res.Violate("refused-want-accepted-on-repeat", "wants %v were refused (%v) but the same request repeated on the same finder was accepted", p.Wants, procErr)
+					return
+				}
+				if cs, err := f.CommitsToSend(); err == nil {
+					for _, c := range cs {
+						ci, ok := idx[string(c.Sum)]
+						if ok && (!reachable[ci] || !ancW[ci]) {
+							res.Violate("refused-want-sent", "after the refusal of wants %v the finder lists c%d for sending (unreachable from any ref, or not an ancestor of a want)", p.Wants, ci)
+							return
+						}
+					}
+				}
 				continue
 			}
 			res.Violate("process-error", "Process: %v", procErr)
